@@ -83,7 +83,7 @@ static void drive(carquet_reader_t* rd, const char* mode) {
     }
 }
 
-static void try_image(const uint8_t* img, size_t n, const char* what) {
+static void try_image_inner(const uint8_t* img, size_t n, const char* what) {
     mc_desc("%s", what); g_cur_n = n; if (n == 0) return;
     mc_budget_ms((unsigned)(600 + n / 2));
     FILE* f = fopen(g_path, "wb"); if (!f || fwrite(img, 1, n, f) != n) mc_harness_error("scratch write failed"); fclose(f);
@@ -101,14 +101,23 @@ static void try_image(const uint8_t* img, size_t n, const char* what) {
     free(x); mc_count("images", 1);
 }
 
+#include <time.h>
+static void try_image(const uint8_t* img, size_t n, const char* desc) {
+    struct timespec a, b; clock_gettime(CLOCK_MONOTONIC, &a); try_image_inner(img, n, desc); clock_gettime(CLOCK_MONOTONIC, &b);
+    double ms = (b.tv_sec - a.tv_sec) * 1e3 + (b.tv_nsec - a.tv_nsec) / 1e6; const char* lf = getenv("C04_SLOWLOG");
+    if (lf && ms > 30) { FILE* f = fopen(lf, "a"); if (f) { fprintf(f, "%.1f ms %s\n", ms, desc); fclose(f); } }
+}
+
 /* ---- seeds --------------------------------------------------------------------------- */
 #define NSEED 12
 static int make_seed(int k, ref_buf* img) {
     rfile_t f; memset(&f, 0, sizeof f); static ref_coldata cols[16]; int np; static ref_stats st1, st2;
     f.ncols = 2; f.N = 6; f.nrg = 1; f.crc = true; f.dict_offset_present = true; f.fl.created_by = "seed";
     f.col[0].ptype = PT_INT32; f.col[1].ptype = PT_BYTE_ARRAY; f.col[1].opt = 1; f.mask[1] = 0x12; f.npages[0] = 2; f.page_levels[0][0] = 4; f.page_levels[0][1] = 2;
-    switch (k) {
+    if (k >= 100) f.crc = false;                     /* body-mutation seeds: no page checksums, uncompressed, so that the decoders see the changed bytes */
+    switch (k >= 100 ? (k == 100 ? 0 : k == 101 ? 201 : 5) : k) {
     case 0: break;
+    case 201: f.enc[0] = ENC_RLE_DICT; f.enc[1] = ENC_RLE_DICT; break;
     case 1: f.enc[0] = ENC_RLE_DICT; f.enc[1] = ENC_RLE_DICT; f.codec = CODEC_SNAPPY; break;
     case 2: f.codec = CODEC_GZIP; f.col[0].ptype = PT_INT64; f.col[0].opt = 1; f.mask[0] = 0x21; break;
     case 3: f.codec = CODEC_ZSTD; f.col[0].ptype = PT_DOUBLE; f.enc[1] = ENC_PLAIN_DICT; break;
@@ -246,6 +255,11 @@ static void enumerate(void) {
                 /* byte-level */
                 uint8_t* m = malloc(img.n); static const uint8_t SUB[] = { 0x00, 0x01, 0x7f, 0x80, 0xff };
                 for (size_t i = 0; i < img.n; i++) for (int s = 0; s < 5; s++) { if (img.p[i] == SUB[s]) continue; if (!mc_next()) continue; memcpy(m, img.p, img.n); m[i] = SUB[s]; char d[96]; snprintf(d, sizeof d, "c04:%s;byte@%zu=%02x", seed, i, SUB[s]); mc_case_key(mc_hash(d, strlen(d), 2)); mc_nontrivial(); mc_feature("byte-mutation"); try_image(m, img.n, d); }
+                /* the 4-byte footer length: every value around the file size and around the true length, and the 32-bit extremes */
+                { uint32_t cand[96]; int nc = 0; for (int d = -16; d <= 4; d++) cand[nc++] = (uint32_t)((int64_t)img.n + d); for (int d = -8; d <= 8; d++) if (d) cand[nc++] = (uint32_t)((int64_t)flen + d);
+                  static const uint32_t EX[] = { 0, 1, 2, 7, 8, 0x7fffffffu, 0x80000000u, 0xfffffff0u, 0xfffffff4u, 0xfffffff7u, 0xfffffff8u, 0xfffffff9u, 0xfffffffbu, 0xfffffffcu, 0xfffffffdu, 0xfffffffeu, 0xffffffffu }; for (int i = 0; i < 17; i++) cand[nc++] = EX[i];
+                  for (int i = 0; i < nc; i++) { if (cand[i] == flen) continue; if (!mc_next()) continue; memcpy(m, img.p, img.n); m[img.n - 8] = (uint8_t)cand[i]; m[img.n - 7] = (uint8_t)(cand[i] >> 8); m[img.n - 6] = (uint8_t)(cand[i] >> 16); m[img.n - 5] = (uint8_t)(cand[i] >> 24);
+                      char d[96]; snprintf(d, sizeof d, "c04:%s;footer-length=%u(file %zu, true %u)", seed, cand[i], img.n, flen); mc_case_key(mc_hash(d, strlen(d), g_salt)); mc_nontrivial(); mc_feature("footer-length"); try_image(m, img.n, d); } }
                 free(m);
             }
             ref_buf_free(&img); ref_arena_free(&RA);
@@ -260,6 +274,18 @@ static void enumerate(void) {
         for (int p = 0; p < rf.npages; p++) { if (!mc_thorough() && p >= 2 && p != rf.npages - 1) continue;     /* quick: first two pages and the last page of every seed */
             ref_tval pr; size_t hu = 0; if (ref_thrift_decode(&RA, img.p + rf.pages[p].header_off, rf.pages[p].body_off - rf.pages[p].header_off, &pr, &hu)) continue; c.hoff = rf.pages[p].header_off; c.hlen = hu; c.page = p; g_pairs_only = true; mutate_tree(&pr, "hdr", emit_page, &c, 2); g_pairs_only = false; }
         ref_buf_free(&img); ref_arena_free(&RA);
+    }
+    mc_stage("page-bodies.every-u32-window.length-prefix-values");
+    for (int k = 100; k <= 102; k++) {
+        ref_buf img; ref_buf_init(&img); if (make_seed(k, &img)) mc_harness_error("seed %d cannot be built", k);
+        ref_file rf; if (ref_pq_read(&RA, img.p, img.n, &rf, 0)) mc_harness_error("seed %d is rejected by the reference reader: %s", k, rf.err);
+        char seed[24]; snprintf(seed, sizeof seed, "seed%d", k); g_salt = 0xc04 + (uint64_t)k * 7 + 9; uint8_t* m = malloc(img.n);
+        for (int p = 0; p < rf.npages; p++) for (size_t o = 0; o + 4 <= rf.pages[p].body_len; o++) {
+            uint32_t rem = (uint32_t)(rf.pages[p].body_len - o - 4); uint32_t V[] = { 0xffffffffu, 0xfffffffcu, 0xfffffffbu, 0xfffffff8u, 0x7fffffffu, 0x80000000u, rem, rem + 1, rem - 1, rem - 4, 0, 1 };
+            for (int vi = 0; vi < 12; vi++) { size_t at = rf.pages[p].body_off + o; uint32_t cur = (uint32_t)img.p[at] | (uint32_t)img.p[at + 1] << 8 | (uint32_t)img.p[at + 2] << 16 | (uint32_t)img.p[at + 3] << 24; if (cur == V[vi]) continue;
+                if (!mc_next()) continue; memcpy(m, img.p, img.n); m[at] = (uint8_t)V[vi]; m[at + 1] = (uint8_t)(V[vi] >> 8); m[at + 2] = (uint8_t)(V[vi] >> 16); m[at + 3] = (uint8_t)(V[vi] >> 24);
+                char d[112]; snprintf(d, sizeof d, "c04:%s;page#%d-body@%zu:u32=%u", seed, p, o, V[vi]); mc_case_key(mc_hash(d, strlen(d), g_salt)); mc_nontrivial(); mc_feature("page-body-u32"); try_image(m, img.n, d); } }
+        free(m); ref_buf_free(&img); ref_arena_free(&RA);
     }
     mc_stage("families.nesting-depth.payload-free-counts");
     { ref_buf img; ref_buf_init(&img); if (make_seed(0, &img)) mc_harness_error("seed"); ref_file rf; if (ref_pq_read(&RA, img.p, img.n, &rf, 0)) mc_harness_error("seed0");
